@@ -21,7 +21,12 @@ def ncName (s : Str) : Bool :=
   | c :: cs => (_root_.W3C.isAsciiLetter c || c == 95) &&
       cs.all fun x => _root_.W3C.isAsciiLetter x || _root_.W3C.isAsciiDigit x || x == 46 || x == 45 || x == 95
 
-def reference (space : Nat → Bool) (r : Str) : Bool := r.all (fun x => !space x) && !([47, 47].isPrefixOf r)
+/-- `r.startswith("//")` -/
+def startsSlashSlash : Str → Bool
+  | 47 :: 47 :: _ => true
+  | _ => false
+
+def reference (space : Nat → Bool) (r : Str) : Bool := r.all (fun x => !space x) && !startsSlashSlash r
 
 /-- the verdict C20 prescribes for `is_w3c_curie` -/
 def curie (space : Nat → Bool) (s : Str) : Bool :=
